@@ -57,7 +57,7 @@ def shrink(self, antimask):
     antimask_rank = antimask.ndim
     extras = self_rank - antimask_rank
     if extras < 0:
-        self = self.broadcast_to(antimask.shape, recursive=False)
+        self = self.broadcast_to(antimask.shape)
         self_rank = antimask_rank
         extras = 0
 
@@ -71,7 +71,7 @@ def shrink(self, antimask):
                        for k in range(len(after))])
     new_shape = before + new_after
     if self._shape_ != new_shape:
-        self = self.broadcast_to(new_shape, recursive=False)
+        self = self.broadcast_to(new_shape)
     if antimask.shape != new_after:
         antimask = np.broadcast_to(antimask, new_after)
 
